@@ -179,3 +179,11 @@ Theorem C12_f64_history_in_limits : forall (s : @pid Floats.PrimFloat.float) (cs
   out_ok (List.fold_left pstep_apply cs s).
 Proof. exact f64_pid_history_in_limits. Qed.
 Print Assumptions C12_f64_history_in_limits.
+
+Theorem C12_f64_neuro_output_in_limits : forall (n : @neuro Floats.PrimFloat.float) (set f e ec : Floats.PrimFloat.float),
+  lim_ok (npid n) ->
+  (out_ok (npid (neuro_run F64_ops n set f)) /\ lim_ok (npid (neuro_run F64_ops n set f))) /\
+  (out_ok (npid (neuro_inc_ F64_ops n f e ec)) /\ lim_ok (npid (neuro_inc_ F64_ops n f e ec))) /\
+  (out_ok (npid (neuro_inc F64_ops n set f)) /\ lim_ok (npid (neuro_inc F64_ops n set f))).
+Proof. exact f64_neuro_out_in_limits. Qed.
+Print Assumptions C12_f64_neuro_output_in_limits.
